@@ -496,6 +496,10 @@ pub fn msg_slots() -> Vec<Item> {
         arr(vec![r_valid_nil.clone(), r_nest2.clone()]),
         arr(vec![r_nest3.clone()]),
         arr(vec![r_nest_two.clone()]),
+        // four pairwise different elements in no particular order (an index or ordering slip that
+        // alternating elements would hide)
+        arr(vec![sig_valid3(), sig_valid(), sig_valid4(), sig_valid2()]),
+        arr(vec![r_valid_nil.clone(), r_nest2.clone(), r_valid.clone(), rec(bwrap(&map(vec![(u(4), b(b"r4"))])), map(vec![(u(1), i(-3))]), b(b"c4"), None)]),
         arr(vec![r_bad.clone()]),
         arr(vec![r_nest2_bad.clone()]),
         arr(vec![r_nest3_bad.clone()]),
